@@ -169,8 +169,9 @@ structure Oracle where
   parseErr : Nat → Feature → St → Bool
   /-- the `k`-th I/O operation fails -/
   fault : Nat → Bool
-  /-- the context is cancelled once the trace is this one (the deadline of the connection is
-  then in the past: every I/O operation fails) -/
+  /-- the context is done once the trace is this one: `ctx.Done()` fires, whatever made it fire (a
+  cancel function, an expiring deadline or timeout, a cancelled parent, done at entry). The watcher
+  then puts the deadline of the connection in the past: every I/O operation fails -/
   cancel : List Ev → Bool
   /-- the `k`-th I/O operation blocks: it only returns when its deadline passes -/
   block : Nat → Bool
